@@ -60,6 +60,25 @@ CLAIMS['C20'] = {
     'note': TB + ' The replay binary itself (argument parsing, mmap of the trace, logging) is run, not modelled.',
     'technique': 'Lean 4 theorem about the replayer bookkeeping (list/arith induction) + differential run of the built replay binary on synthetic traces',
 }
+CLAIMS['C07'] = {
+    'text': ('Theorems init_none_roundtrip / handoff_bisim: decoding the encoding of any memory whose entries fit their bit fields '
+             'gives the memory back (pack/unpack round trips for the 28|1|3-bit tree entry and the 44|19|1-bit slot), hence the '
+             'allocator rebuilt with Init::None is the same model state and answers every continuation identically. That the '
+             'implementation has no other state is measured by the handoff correspondence (twin allocator over byte copies, '
+             'identical continuations, results + buffers + statistics compared after every call).'),
+    'note': TB,
+    'technique': 'Lean 4 codec round-trip theorems + twin-allocator differential over byte copies',
+}
+CLAIMS['C17'] = {
+    'text': ('Theorems zone_get_translate / zone_get_any_translate / zone_put_forward / zone_stats_at_forward / zone_result_ge (the zone '
+             'wrapper is the inner call on frame - offset with the result shifted by the offset; below the offset see C08); nvm_layout '
+             '(for every geometry, frame size and accepted region size z: managed + metadata pages + header page tile the region and '
+             'the metadata of the managed frames fits into its pages; with the range theorem of C01/C02 no block overlaps them); '
+             'nvm_recover_rejects/accepts. "Recovers with the same allocation state" is carried by the correspondence (create, history, '
+             'forget, recover: same statistics, every held block freeable) and by C05.'),
+    'note': TB,
+    'technique': 'Lean 4 theorems (symbolic execution of the wrapper, layout arithmetic) + differential runs through ZoneAlloc and NvmAlloc over real memory regions',
+}
 
 _PENDING = 'claimed by DESIGN.md; theorem module not yet landed in this revision (work in progress, see DESIGN.md §10 staging)'
 NOT_APPLICABLE = {
